@@ -35,7 +35,7 @@ func runC12(c *Ctx) {
 	ruleShimNilMessages(c, p, "C12.N")
 	c.Rule("C12.A", "every endpoint path answers once, with an allowed status", 15)
 	c.Rule("C12.U", "unknown or closed sessions are rejected with 400 and forgotten; received messages are delivered first", 16)
-	c.Rule("C12.L", "connection lifecycle pairing", 8)
+	c.Rule("C12.L", "connection lifecycle pairing", 9)
 
 	ruleShimChannels(c, p, "C12.C", "C12.B")
 	c.Rule("C12.S", "concurrent opens get distinct session IDs (a shared ID orphans a connection that close can never reach)", 2)
@@ -101,6 +101,7 @@ func runC12(c *Ctx) {
 		}
 		c.Check("C12.U", "poll:delivers-received-before-reporting-closed", p, f.Pos(), bad == "", "once a server message was taken from the queue every return delivers the accumulated messages; the closed state is reported by the next poll", "ReadServerMessages can report the session closed ("+bad+") after it already took messages from the queue: messages received before the backend closed are never delivered")
 	}
+	rulePollErrorOnlyWhenDrained(c, p, "C12.U")
 	se := resolveShimEndpoints(c, p, "C12.A")
 	if se == nil {
 		return
@@ -512,6 +513,44 @@ func runC12(c *Ctx) {
 			}
 		}
 		c.Check("C12.L", "Close:sends-close-frame", p, cl.Pos(), ok, "Close() queues a websocket CloseMessage for the writer", "Close() no longer queues a CloseMessage: the writer never exits, the backend websocket stays open")
+		// … and the path from closing the `closed` channel to that send passes no select that
+		// has a receive arm on `closed`: that arm is ready from then on, so such a select takes
+		// it and the close frame is never queued
+		for _, fn := range WithClosures(cl) {
+			var closeOp, sendOp ssa.Instruction
+			for _, op := range ChanOpsOf(fn) {
+				if _, fld, isF := FieldLoad(Roots(op.Chan)[0]); isF {
+					if op.Kind == "close" && fld == "closed" {
+						closeOp = op.Instr
+					}
+					if op.Kind == "send" && fld == "clientMessages" {
+						sendOp = op.Instr
+						if op.Select != nil {
+							sendOp = op.Select
+						}
+					}
+				}
+			}
+			if closeOp == nil || sendOp == nil {
+				continue
+			}
+			onClosed := func(i ssa.Instruction) bool {
+				sel, isSel := i.(*ssa.Select)
+				if !isSel || i == sendOp {
+					return false
+				}
+				for _, st := range sel.States {
+					if st.Dir == types.RecvOnly {
+						if _, fld, isF := FieldLoad(Roots(st.Chan)[0]); isF && fld == "closed" {
+							return true
+						}
+					}
+				}
+				return false
+			}
+			reach, _ := (&Walk{Target: func(i ssa.Instruction) bool { return i == sendOp }, Avoid: onClosed, Ctx: cl}).FromInstr(closeOp)
+			c.Check("C12.L", "Close:close-frame-not-behind-the-closed-test", p, closeOp.Pos(), reach != nil, "after marking the connection closed, Close() reaches the send of the close frame without a select on the closed channel in between", "after close(conn.closed) every path to the send of the close frame passes a select with a receive arm on conn.closed (a shared enqueue helper that refuses closed connections): the arm is ready, the close frame is refused, the writer never exits and the backend websocket stays open although the shim answered the close call with 200")
+		}
 	}
 }
 
